@@ -441,11 +441,23 @@ def run_coupled(name, modes, ti, nonprop, order, fname, icname, tier, res):
         eom_residual(M, B, K, F, sol, list(range(n)), [], tag, msgs,
                      float(tc[0]) if (illcond and tag.startswith("SolveUnc/coupled")) else 1e4 * EPS * max(1.0, zmax) * np.linalg.cond(M))
 
+    mats0 = (M.copy(), B.copy(), K.copy())
     attempt("SolveExp2/coupled", lambda: ode.SolveExp2(M, B, K, Hh, order=order), te)
     defective = any(abs(md.get("rat", 1.0)) < 1e-6 for md in modes)
     if not has_rb:
         if not defective:
             attempt("SolveUnc/coupled", lambda: ode.SolveUnc(M, B, K, Hh, order=order), tc)
+    if fname == "rand6" and not smallstep:
+        # the same matrices in Fortran (column-major) order; whatever their layout, the caller's matrices are never modified
+        # (a second solver built from the same arrays must see the same system)
+        Mf, Bf, Kf = (np.asfortranarray(X.copy()) for X in mats0)
+        attempt("SolveExp2/coupled-Forder", lambda: ode.SolveExp2(Mf, Bf, Kf, Hh, order=order), te)
+        if not has_rb and not defective:
+            attempt("SolveUnc/coupled-Forder", lambda: ode.SolveUnc(Mf, Bf, Kf, Hh, order=order), tc)
+        if not all(np.array_equal(a, b) for a, b in zip((Mf, Bf, Kf), mats0)):
+            msgs.append("SolveExp2/SolveUnc: the caller's Fortran-ordered m, b or k was modified")
+    if not all(np.array_equal(a, b) for a, b in zip((M, B, K), mats0)):
+        msgs.append("SolveExp2/SolveUnc: the caller's m, b or k was modified")
     if smallstep:
         return msgs
     if not nonprop and not (static or d0 is not None or v0 is not None):
@@ -693,6 +705,135 @@ def run_bvec(sysname, order, fname, icname, tier, res):
     return msgs
 
 
+# ------------------------------------------------------------------ rf partitions listed in any order; heavy masses
+def run_rfperms(order, res):
+    """a block of four residual-flexibility modes listed in EVERY order (24 listings, as list and ndarray): each listing
+    gives the response of the sorted listing bit for bit (time and frequency domain), and rf rows solve K d = F"""
+    from pyyeti import ode
+
+    msgs = []
+    for layout in ("rf-in-the-middle", "all-partitions-contiguous"):
+        msgs += _rfperms_layout(layout, order, res)
+        if len(msgs) > 6:
+            break
+    msgs += _rbperms(order, res)
+    return msgs
+
+
+def _rfperms_layout(layout, order, res):
+    from pyyeti import ode
+
+    msgs = []
+    if layout == "rf-in-the-middle":  # [rb, el, rf, rf, rf, rf, el]: the elastic partition is split (index-vector code paths)
+        m = np.array([2.0, 1.0, 1.0, 1.0, 1.0, 1.0, 0.5])
+        k = np.array([0.0, 250.0, 4.0e5, 9.0e5, 2.5e6, 6.0e6, 900.0])
+        b = np.array([0.0, 2.5, 0.0, 0.0, 0.0, 0.0, 3.0])
+        e1, e2, blk = 1, 6, [2, 3, 4, 5]
+        fsc = np.array([1.0, 2.0, 300.0, -500.0, 800.0, 1200.0, 1.5])
+    else:  # [rb, el, el, rf, rf, rf, rf]: every partition is a contiguous block (slice code paths)
+        m = np.array([2.0, 1.0, 0.5, 1.0, 1.0, 1.0, 1.0])
+        k = np.array([0.0, 250.0, 900.0, 4.0e5, 9.0e5, 2.5e6, 6.0e6])
+        b = np.array([0.0, 2.5, 3.0, 0.0, 0.0, 0.0, 0.0])
+        e1, e2, blk = 1, 2, [3, 4, 5, 6]
+        fsc = np.array([1.0, 2.0, 1.5, 300.0, -500.0, 800.0, 1200.0])
+    n = len(m)
+    F = np.cos(np.arange(n)[:, None] * 0.7 + np.arange(6)[None, :] * 0.9) * fsc[:, None]
+    Kc = np.diag(k)
+    Kc[e1, e2] = Kc[e2, e1] = -40.0
+    Mc = np.diag(m)
+    Mc[e1, e2] = Mc[e2, e1] = 0.1
+    freq = np.array([0.5, 3.0, 11.0])
+    Ff = F[:, :3] * (1 + 0.5j)
+    makers = {"SolveUnc/diag": lambda rf: ode.SolveUnc(m, b, k, H, rf=rf, order=order), "SolveExp2/diag": lambda rf: ode.SolveExp2(m, b, k, H, rf=rf, order=order),
+              "SolveUnc/coupled": lambda rf: ode.SolveUnc(Mc, np.diag(b), Kc, H, rf=rf, order=order), "SolveExp2/coupled": lambda rf: ode.SolveExp2(Mc, np.diag(b), Kc, H, rf=rf, order=order)}
+    for name, mk in makers.items():
+        try:
+            base = mk(list(blk)).tsolve(F.copy())
+            fbase = mk(list(blk)).fsolve(Ff.copy(), freq) if name.startswith("SolveUnc") else None
+        except Exception as e:  # noqa
+            msgs.append("%s(rf=%s) raised %r" % (name, blk, e))
+            continue
+        if not np.allclose(base.d[blk] * k[blk, None], F[blk], rtol=1e-12, atol=0):
+            msgs.append("%s(rf=%s): residual-flexibility rows do not satisfy K d = F" % (name, blk))
+        for perm in itertools.permutations(blk):
+            for form in ("list", "array"):
+                rf = list(perm) if form == "list" else np.array(perm)
+                res.ev("rfperms/%s/%s/o%d" % (layout, name, order))
+                try:
+                    sol = mk(rf).tsolve(F.copy())
+                    fsol = mk(rf).fsolve(Ff.copy(), freq) if fbase is not None else None
+                except Exception as e:  # noqa
+                    msgs.append("%s(rf=%s as %s) raised %r" % (name, list(perm), form, e))
+                    continue
+                if not all(np.array_equal(getattr(sol, nm), getattr(base, nm)) for nm in "dva"):
+                    msgs.append("%s with rf listed as %s gives a different response than rf=%s (max |d| diff %.3g)" % (name, list(perm), blk, np.abs(sol.d - base.d).max()))
+                elif fsol is not None and not all(np.array_equal(getattr(fsol, nm), getattr(fbase, nm)) for nm in "dva"):
+                    msgs.append("%s.fsolve with rf listed as %s gives a different response than rf=%s" % (name, list(perm), blk))
+        if len(msgs) > 6:
+            break
+    return ["[%s] %s" % (layout, t) for t in msgs]
+
+
+def _rbperms(order, res):
+    from pyyeti import ode
+
+    msgs = []
+    # rigid-body partitions listed in any order, with the rigid-body DOF coupled in the mass matrix
+    n4 = 4
+    M4 = np.diag([2.0, 1.0, 3.0, 1.5])
+    M4[0, 2] = M4[2, 0] = 0.4
+    K4 = np.diag([0.0, 250.0, 0.0, 900.0])
+    B4 = np.diag([0.0, 2.5, 0.0, 3.0])
+    F4 = np.cos(np.arange(n4)[:, None] * 0.7 + np.arange(6)[None, :] * 0.9)
+    for cls in (ode.SolveUnc, ode.SolveExp2):
+        try:
+            auto = cls(M4, B4, K4, H, order=order).tsolve(F4.copy())
+            for rbl in ([0, 2], [2, 0], np.array([2, 0]), np.array([True, False, True, False])):
+                res.ev("rbperms/%s/o%d" % (cls.__name__, order))
+                sol = cls(M4, B4, K4, H, rb=rbl, order=order).tsolve(F4.copy())
+                if not all(np.allclose(getattr(sol, nm), getattr(auto, nm), rtol=1e-12, atol=1e-14) for nm in "dva"):
+                    msgs.append("%s with rb given as %s (rigid-body DOF coupled in the mass) differs from the automatically detected partition: max |a| diff %.3g"
+                                % (cls.__name__, np.asarray(rbl).tolist(), np.abs(sol.a - auto.a).max()))
+            if cls is ode.SolveUnc:
+                fq = np.array([1.0, 2.0, 3.0])
+                fa = cls(M4, B4, K4, rb=[0, 2]).fsolve(F4[:, :3] + 0j, fq)
+                fb = cls(M4, B4, K4, rb=[2, 0]).fsolve(F4[:, :3] + 0j, fq)
+                if not all(np.allclose(getattr(fa, nm), getattr(fb, nm), rtol=1e-12, atol=1e-14) for nm in "dva"):
+                    msgs.append("SolveUnc.fsolve with rb=[2, 0] differs from rb=[0, 2] (rigid-body DOF coupled in the mass)")
+        except Exception as e:  # noqa
+            msgs.append("%s with an explicit rb partition on a coupled mass raised %r" % (cls.__name__, e))
+    return msgs
+
+
+def run_heavy(order, icname, res):
+    """documented rule: a mode of a diagonal system is rigid-body when |k| < 0.005 (not k/m): heavy masses with k above the
+    threshold but k/m far below it are elastic modes and must be integrated exactly (h = 0.5 s)"""
+    from pyyeti import ode
+
+    msgs = []
+    hh = 0.5
+    m = np.array([1000.0, 1.0, 400.0])
+    k = np.array([2.0, 30.0, 0.006])
+    b = np.array([0.5, 0.3, 0.0])
+    n = 3
+    F = forces(n, "quick")["rand6"].copy() * np.array([50.0, 1.0, 0.2])[:, None]
+    d0, v0, static = ics(n, "quick")[icname]
+    M, B, K = np.diag(m), np.diag(b), np.diag(k)
+    ref = reference(M, B, K, hh, F, d0, v0, order, [], static, [0, 1, 2])
+    sc3 = scales(ref, M, B, K, F, np.sqrt(k / m))
+    kw = dict(d0=d0, v0=v0, static_ic=static)
+    for tag, mk in (("SolveUnc/m1d", lambda: ode.SolveUnc(m, b, k, hh, order=order)), ("SolveUnc/m2d", lambda: ode.SolveUnc(M, b, K, hh, order=order)),
+                    ("SolveExp2/m1d", lambda: ode.SolveExp2(m, b, k, hh, order=order)), ("SolveExp2/m2d", lambda: ode.SolveExp2(M, B, k, hh, order=order))):
+        res.ev("heavy/%s/o%d/%s" % (tag, order, icname))
+        try:
+            sol = mk().tsolve(F.copy(), **kw)
+        except Exception as e:  # noqa
+            msgs.append("%s (heavy masses): raised %r" % (tag, e))
+            continue
+        compare(sol, ref, np.full(n, 1e-8), sc3, tag + "/heavy-mass modes (k >= 0.005, k/m << 0.005, h = 0.5)", msgs, res)
+    return msgs
+
+
 # ------------------------------------------------------------------ force / IC arrays of other dtypes and layouts
 def run_dtype(solver, order, icname, res):
     """the force history may be any real array-like: integer, float32, nested lists, Fortran order or a strided view of
@@ -753,6 +894,8 @@ def shards(tier, seed):
     for sysname in bvec_systems():
         out.append(dict(part="bvec", sys=sysname, tier=tier))
     out.append(dict(part="dtype", tier=tier))
+    out.append(dict(part="rfperms", tier=tier))
+    out.append(dict(part="heavy", tier=tier))
     for z1, ti, nonprop in ((0.01, 0, False), (0.01, 1, True), (0.5, 0, False), (0.5, 1, True)):
         out.append(dict(part="longrun", z1=z1, ti=ti, nonprop=nonprop, tier=tier))
     ms = modal_systems(tier)
@@ -789,6 +932,18 @@ def run_shard(sh):
             for m in run_bvec(sh["sys"], order, fname, icname, tier, res):
                 res.viol(case, m, kind=m.split(":")[0] + ("/" + m.split(":")[1].split()[0]))
         res.sample(case)
+        return res
+    if sh["part"] == "rfperms":
+        for order in (0, 1):
+            for m in run_rfperms(order, res):
+                res.viol(dict(part="rfperms", order=order, tier=tier), m, kind="rfperms-" + m.split("(")[0].split(" with")[0])
+        res.sample(dict(sh))
+        return res
+    if sh["part"] == "heavy":
+        for order, icname in itertools.product((0, 1), ics(3, "quick")):
+            for m in run_heavy(order, icname, res):
+                res.viol(dict(part="heavy", order=order, ic=icname, tier=tier), m, kind="heavy-" + m.split(":")[0][:30])
+        res.sample(dict(sh))
         return res
     if sh["part"] == "dtype":
         for solver, order, icname in itertools.product(("SolveExp1", "SolveExp2/diag", "SolveExp2/full", "SolveUnc/diag", "SolveUnc/full"), (0, 1),
@@ -854,6 +1009,10 @@ def replay(case):
         return run_bvec(case["sys"], case["order"], case["force"], case["ic"], tier, res)
     if case["part"] == "dtype":
         return run_dtype(case["solver"], case["order"], case["ic"], res)
+    if case["part"] == "rfperms":
+        return run_rfperms(case["order"], res)
+    if case["part"] == "heavy":
+        return run_heavy(case["order"], case["ic"], res)
     if case["part"] == "mc":
         return run_mc(mc_systems(tier)[case["sys"]], case["order"], case["force"], case["ic"], tier, res)
     if case["part"] == "modal":
